@@ -209,6 +209,21 @@ typedef struct _ADFH_MTA {
 
 static ADFH_MTA  *mta_root=NULL;
 
+/* The index to iterate the links of a group with: creation order where the
+   group tracks it (every file written by this library), by name otherwise
+   (files of early versions). Asked of the group itself, so that files of both
+   kinds can be open at the same time. */
+static H5_index_t link_index_of(hid_t gid)
+{
+  unsigned int crt_order_flags = 0;
+  hid_t pid = H5Gget_create_plist(gid);
+  if (pid >= 0) {
+    H5Pget_link_creation_order(pid, &crt_order_flags);
+    H5Pclose(pid);
+  }
+  return crt_order_flags == 0 ? H5_INDEX_NAME : H5_INDEX_CRT_ORDER;
+}
+
 /* error codes and messages - do not care about multi-threading here */
 static struct _ErrorList {
   int errcode;
@@ -1936,9 +1951,9 @@ void ADFH_Number_of_Children(const double  id,
   *number = 0;
   if ((hid = open_node(id, err)) >= 0) {
 #if ADFH_HDF5_HAVE_112_API
-    H5Literate2(hid, mta_root->link_create_order, H5_ITER_NATIVE, &gskip, count_children, (void *)number);
+    H5Literate2(hid, link_index_of(hid), H5_ITER_NATIVE, &gskip, count_children, (void *)number);
 #else
-    H5Literate(hid, mta_root->link_create_order, H5_ITER_NATIVE, &gskip, count_children, (void *)number);
+    H5Literate(hid, link_index_of(hid), H5_ITER_NATIVE, &gskip, count_children, (void *)number);
 #endif
     H5Gclose(hid);
   }
@@ -2097,10 +2112,10 @@ void ADFH_Children_IDs(const double pid,
 #endif
   if ((hpid = open_node(pid, err)) >= 0) {
 #if ADFH_HDF5_HAVE_112_API
-    H5Literate2(hpid,mta_root->link_create_order,H5_ITER_INC,
+    H5Literate2(hpid,link_index_of(hpid),H5_ITER_INC,
                NULL,children_ids,(void *)IDs);
 #else
-    H5Literate(hpid,mta_root->link_create_order,H5_ITER_INC,
+    H5Literate(hpid,link_index_of(hpid),H5_ITER_INC,
                NULL,children_ids,(void *)IDs);
 #endif
     if (IDs[0]==-1)
@@ -2487,9 +2502,9 @@ void ADFH_Database_Open(const char   *name,
 #ifdef ADFH_FORTRAN_INDEXING
     if (mode != ADFH_MODE_RDO && child_exists(gid, D_OLDVERS)) {
 #if ADFH_HDF5_HAVE_112_API
-      H5Literate2(gid, mta_root->link_create_order, H5_ITER_INC, NULL, fix_dimensions, NULL);
+      H5Literate2(gid, link_index_of(gid), H5_ITER_INC, NULL, fix_dimensions, NULL);
 #else
-      H5Literate(gid, mta_root->link_create_order, H5_ITER_INC, NULL, fix_dimensions, NULL);
+      H5Literate(gid, link_index_of(gid), H5_ITER_INC, NULL, fix_dimensions, NULL);
 #endif
       H5Lmove(gid, D_OLDVERS, gid, D_VERSION, H5P_DEFAULT, H5P_DEFAULT);
     }
